@@ -386,7 +386,7 @@ def unfold_opaque(exprs, depth=2, ob_name=""):
     return eqs
 
 
-def prepare(obs, shifts_for=None, extra_inst_terms=None, units=(), last_for=None):
+def prepare(obs, shifts_for=None, extra_inst_terms=None, units=(), last_for=None, select_terms=False):
     """obligations -> AtomQuery list with SMT-LIB text for each stage"""
     queries = []
     for oi, ob in enumerate(obs):
@@ -429,6 +429,16 @@ def prepare(obs, shifts_for=None, extra_inst_terms=None, units=(), last_for=None
                 lt += [a + c for a in anchors for c in lt]
                 terms_unit += lt
                 terms_byte += lt
+            if select_terms:
+                # (opt-in per contract) every ground array position read in the quantifier-free hypotheses or the goal is a byte-class term
+                from .engine import _select_indices
+
+                seen_ix = []
+                for e_ in qf + [body]:
+                    for ix in _select_indices(e_):
+                        if not any(ix.eq(x) for x in seen_ix):
+                            seen_ix.append(ix)
+                terms_byte += [t for t in seen_ix[:40] if not any(t.eq(x) for x in terms_byte)]
             # unit quotients: a byte index k lies in unit (sector) k div u; callee/element contracts are indexed by units
             unit_facts = []
             for s_ in byte_sk:
